@@ -4,6 +4,7 @@ import TsVerif.C03.LangLemmas
 import TsVerif.C03.DynLemmas
 import TsVerif.C03.PrattLemmas
 import TsVerif.C03.Sound
+import TsVerif.C03.Relate
 import TsVerif.C03.Judge
 /-!
 # C03 — A generated parser recognises exactly its grammar and builds its derivation
@@ -103,15 +104,32 @@ theorem select_tree_prefers_lower_cost (l r : Cand) (hc : l.errorCost ≠ r.erro
   · have : l.errorCost < r.errorCost := by omega
     simp [h, this]
 
-/-- `driver_sound`: on a table that passes the decidable `rootSafe` (no transition enters the start
-state; accepting states are entered only from the start state) every tree the driver accepts — for
-ALL token strings — is a tree over the productions the table spells (`TreeOver`): each node
-`(A, production_id)` has as its non-extra children exactly the symbols `X₁ … Xₙ` of a path of `n`
-transitions into a state that carries the reduce action `(A, n, production_id)` (`IsProd`). -/
-theorem driver_sound (tbl : Table) (h1 : 1 < tbl.stateCount) (hroot : rootSafe tbl = true)
+/-- `driver_sound`: on a table that passes the decidable `tableSafe` (state 1 exists; no transition
+enters the start state and accepting states are entered only from it; non-extra shifts are on real
+terminals that are never shifted as extras; no non-terminal extras) every tree the driver accepts —
+for ALL token strings — is a tree over the productions the table spells (`TreeOver`): each node
+`(A, production_id)` is a non-extra node whose non-extra children carry exactly the symbols
+`X₁ … Xₙ` of a path of `n` transitions into a state with the reduce action `(A, n, production_id)`
+(`IsProd`), every extra leaf is a token the table shifts as an extra. -/
+theorem driver_sound (tbl : Table) (hsafe : tableSafe tbl = true)
     (toks : List Nat) (t : PTree) (h : run tbl toks = .accepted t) : TreeOver tbl t := by
+  unfold tableSafe at hsafe
+  simp only [Bool.and_eq_true, decide_eq_true_eq] at hsafe
+  obtain ⟨⟨⟨h1, hroot⟩, hleaf⟩, hnle⟩ := hsafe
   unfold run at h
-  exact runLoop_sound tbl h1 hroot _ _ t (by simp [Spells]) h
+  exact (runLoop_sound tbl h1 hroot hleaf hnle _ _ t (by simp [Spells]) h).1
+
+/-- `parser_sound_per_grammar`: the relation to the SOURCE grammar, per validated grammar instead of
+per output tree.  If the table passes `tableSafe` and every production the table spells is an
+instance of the source rule of its left-hand side (`relOK g tbl aux`, decidable; `aux` assigns each
+repeat-auxiliary symbol the rule it repeats), then for ALL token strings: whatever the driver
+accepts is derived by the grammar's start rule (table extras removed) — `has_error = false ⇒
+string ∈ L(G)` as a theorem about the generated table, for the model driver. -/
+theorem parser_sound_per_grammar (g : Grammar) (tbl : Table) (aux : AuxMap) (hsafe : tableSafe tbl = true)
+    (hrel : relOK g tbl aux = true) (toks : List Nat) (hnz : ∀ a, a ∈ toks → a ≠ 0) (t : PTree)
+    (h : run tbl toks = .accepted t) :
+    DerivesTok g (.sym g.start) ((toks.filter fun a => !isExtraSym tbl a).map (tokOf tbl)) :=
+  parser_sound g tbl aux hsafe hrel toks hnz t h
 
 /-- `glr_yield`: for cells with several actions the model follows every action (`parseAll`); each
 accepting run yields a tree whose leaves are exactly the token string — in particular the tree
@@ -187,7 +205,7 @@ def tinyTable : Table :=
     lexState := #[0, 0, 0, 0] }
 
 example : tableClosed tinyTable = true := by decide
-example : rootSafe tinyTable = true ∧ 1 < tinyTable.stateCount := by decide
+example : tableSafe tinyTable = true := by decide
 example : (∀ a, a ∈ [1] → a ≠ 0) := by decide
 example : (match run tinyTable [1] with | .accepted t => t.leaves == [1, 0] | _ => false) = true := by decide
 example : (match run tinyTable [1, 1] with | .rejected _ => true | _ => false) = true := by decide
